@@ -5,6 +5,20 @@ props = [json.loads(l) for l in open(os.path.join(VERIF, "properties.jsonl"))]
 ids = [p["id"] for p in props]
 
 CHECKS = {
+ "C06": dict(
+   text="Proof + observation. In the model a solve is a function of the circuit and the call's arguments (no state is threaded), so "
+        "history-freedom of the VALUES holds by construction; props/C06.v proves (closed) that the one piece of state the code keeps "
+        "between calls on the parameter path — a model's working dictionary — is, after the fix, determined by the defaults and the "
+        "current call for every history and every previous content (history_free), formally refutes the as-found update (asfound_leaks = "
+        "finding F05), and that solving leaves the wiring state unchanged. 'Results already returned keep their values' is a statement "
+        "about Python aliasing and is OBSERVED: the tie solves a hierarchy and its shared sub-solvers in random order with random "
+        "argument subsets and repeats, keeps every result alive, reads each right after its call and again at the end, compares both "
+        "readings with the model's history-free value (spy leaves reveal every key they receive), and compares a fingerprint of every "
+        "solver's structures, connections, exposed pins, renamings and defaults around each call. Monitor read-outs of earlier results are "
+        "re-read in the C10 check.",
+   note="Trusted: Coq kernel + vm_compute; model Params.v tied by sampled correspondence; harness. The immutability of returned objects "
+        "is an observation over the histories run, not a theorem. Follows the fixed code (F05).",
+   technique="Coq theorems (history-freedom of the retained state) + vm_compute correspondence over solve histories with results kept alive", design="§5 C06"),
  "C05": dict(
    text="Proof: props/C05.v (closed). For every renaming with distinct old names and every incoming dictionary, the model of "
         "Structure.update_params delivers under each key exactly the specified value (rename_shield_spec); hence renaming is independent "
